@@ -305,11 +305,11 @@ class Repo:
                         out.append((m, d))
         return out
 
-    def all_functions(self) -> Iterator[Tuple[Module, str, ast.FunctionDef]]:
+    def all_functions(self, canon: bool = False) -> Iterator[Tuple[Module, str, ast.FunctionDef]]:
         for m in self.modules.values():
-            for q, d in m.defs.items():
+            for q, d in list(m.defs.items()):
                 if isinstance(d, (ast.FunctionDef, ast.AsyncFunctionDef)):
-                    yield m, q, d  # type: ignore[misc]
+                    yield m, q, (self.canon(m, d) if canon and not os.environ.get("VF_NO_CANON") else d)  # type: ignore[misc]
 
     # ----- callee resolution
     def enclosing_class(self, node: ast.AST) -> Optional[ast.ClassDef]:
